@@ -20,4 +20,4 @@ a, b = "<!-- SEEDED-TABLE-BEGIN -->", "<!-- SEEDED-TABLE-END -->"
 if a in s:
     s = s[:s.index(a) + len(a)] + "\n" + tab + "\n" + s[s.index(b):]
     open(p, "w").write(s)
-print(len(rows), "rows;", sum(1 for r in rows if "missed" in r), "missed")
+print(len(rows), "rows;", sum(1 for r in rows if "**missed**" in r), "missed")
